@@ -47,6 +47,11 @@ chk("C12",
     "Trusted: TLC; zlib/bz2/brotli; harness byte comparison. snappy is not installed and not exercised.",
     "TLA+ spec (Pmce.tla) model-checked exhaustively with TLC; lattice replay into the real classes validated by TLC (PmceTrace.tla); TLC trace validation of compressed pair traffic (WsChannelTrace.tla)", "5/C12")
 
+chk("C07",
+    "spec/WsHandshake.tla states the RFC 6455 section 4 validation of requests (server) and responses (client) as decision procedures over features of the header block with fault domains; TLC enumerates every case with at most two faulty features (718 requests, 135 responses), checks the tables' sanity and exports them; every case is concretised into octets (name case, whitespace, order, benign variants) and executed against a real server (4 configurations) or client in 2-3 read segmentations, and WsHandshakeTrace.tla re-judges state, status code, accept digest, subprotocol, extensions, drop and escaping exceptions; client request construction, the own-client x own-server option matrix and arbitrary / mutated octet strings (NoEscape, no half state) are validated the same way.",
+    "Trusted: hashlib SHA-1 for the digest, the concretisation tables. Application misuse of onConnect (unlisted subprotocol) may be ended by the opening-handshake timer.",
+    "TLA+ decision tables (WsHandshake.tla) enumerated and exported by TLC; every cell executed against the real handshake code; TLC batch trace validation (WsHandshakeTrace.tla)", "5/C07")
+
 NA_ALL = ["C%02d" % i for i in range(1, 21)]
 for p in NA_ALL:
     if p not in CHECKS:
